@@ -1,9 +1,10 @@
 import H2T.Lemmas.BuildOk
 import H2T.Lemmas.Select
+import H2T.Lemmas.CssTotal
 
 /-! C01 end to end on the model: from a DOM to lines.  `build` never fails (the selector matcher never panics), its trees
-    satisfy `tableOk`, and rendering them is total — so the only non-value outcomes of `renderDom` are `TooNarrow`, a CSS
-    parse error of user/agent CSS, and the CSS parser's fuel running out. -/
+    satisfy `tableOk`, and rendering them is total — so the only non-value outcomes of `renderDom` are `TooNarrow` and a CSS
+    parse error of user/agent CSS (the CSS parser itself never hangs: `CssTotal`). -/
 
 namespace H2T
 open Css
@@ -74,20 +75,23 @@ theorem build_doc (bc : BuildCfg) (up : List Css.Frame) (idx : Nat) (kids : List
   refine ⟨.box {} .container cs, by simp [build, h], ?_⟩
   exact build_ok bc (.doc kids) up idx _ (by simp [build, h])
 
-/-- the outcomes that are values or documented errors: lines, `TooNarrow`, a CSS parse error, or the CSS parser's fuel
-    (`css parser …`) — never a panic, never a hang of the renderer -/
+/-- the outcomes that are values or documented errors: lines, `TooNarrow`, a CSS parse error — never a panic, never a
+    hang -/
 def Outcome.acceptable : Outcome → Prop
   | .lines _ => True
   | .narrow => True
   | .cssErr => True
-  | .hang s => s = "css parser" ∨ s = "css parser (document)"
+  | .hang _ => False
   | .panic _ => False
+
+theorem doAddCss_ne_hang (css : Css.Inp) : Css.doAddCss css ≠ .hang := by
+  rcases Css.doAddCss_no_hang css with ⟨rs, e⟩ | e <;> simp [e]
 
 /-- the shape of `renderDom`: whatever holds of the three CSS error outcomes and of the outcome of rendering any
     `tableOk` tree holds of the pipeline's outcome (the DOM → render tree pass never fails and only yields such trees) -/
 theorem renderDom_ind (P : Outcome → Prop) (cfg : Cfg) (d : Deco) (w : Nat) (useDoc : Bool) (agentCss userCss : Option (List Char))
     (ci : CharInfo) (depth : Nat) (kids : List Node)
-    (h1 : P .cssErr) (h2 : P (.hang "css parser")) (h3 : P (.hang "css parser (document)"))
+    (h1 : P .cssErr)
     (h4 : ∀ tree, tableOk tree = true → P (match renderTree cfg d w tree with
       | .ok ls => .lines ls
       | .error .tooNarrow => .narrow
@@ -105,7 +109,7 @@ theorem renderDom_ind (P : Outcome → Prop) (cfg : Cfg) (d : Deco) (w : Nat) (u
       split at ho
       · simp at ho
       · injection ho with ho; subst ho; exact h1
-      · injection ho with ho; subst ho; exact h2
+      · rename_i hh; exact absurd hh (doAddCss_ne_hang _)
   · split
     · rename_i o ho
       cases userCss with
@@ -115,7 +119,7 @@ theorem renderDom_ind (P : Outcome → Prop) (cfg : Cfg) (d : Deco) (w : Nat) (u
         split at ho
         · simp at ho
         · injection ho with ho; subst ho; exact h1
-        · injection ho with ho; subst ho; exact h2
+        · rename_i hh; exact absurd hh (doAddCss_ne_hang _)
     · split
       · rename_i o ho
         have key : ∀ (l : List (List Ch)) (acc : Except Outcome (List Css.Rule)), (∀ o', acc = .error o' → P o') →
@@ -140,7 +144,7 @@ theorem renderDom_ind (P : Outcome → Prop) (cfg : Cfg) (d : Deco) (w : Nat) (u
               split at e2
               · simp at e2
               · simp at e2
-              · injection e2 with e2; subst e2; exact h3
+              · rename_i hh; exact absurd hh (doAddCss_ne_hang _)
         split at ho
         all_goals first
           | exact key _ _ (by intro o' e; simp at e) o ho
@@ -159,15 +163,13 @@ theorem renderDom_ind (P : Outcome → Prop) (cfg : Cfg) (d : Deco) (w : Nat) (u
 
 /-- **C01 on the whole model pipeline**: for every document (a DOM rooted at a document node, as html5ever produces),
     every configuration, decorator, width, agent/user/document CSS: the outcome is lines, `TooNarrow`, a CSS parse error,
-    or the CSS parser running out of fuel — the DOM → render tree pass never fails, its trees are renderable, and the
-    renderer never panics or hangs -/
+    — the CSS parser never hangs, the DOM → render tree pass never fails, its trees are renderable, and
+    the renderer never panics or hangs -/
 theorem renderDom_acceptable (cfg : Cfg) (d : Deco) (w : Nat) (useDoc : Bool) (agentCss userCss : Option (List Char))
     (ci : CharInfo) (depth : Nat) (kids : List Node) :
     (renderDom cfg d w useDoc agentCss userCss ci depth (.doc kids)).acceptable := by
   apply renderDom_ind Outcome.acceptable
   · trivial
-  · exact Or.inl rfl
-  · exact Or.inr rfl
   · intro tree hok
     have hs := renderTree_total cfg d w tree hok
     cases hr : renderTree cfg d w tree with
@@ -178,15 +180,13 @@ theorem renderDom_acceptable (cfg : Cfg) (d : Deco) (w : Nat) (useDoc : Bool) (a
       trivial
 
 /-- **C11 on the whole model pipeline**: with `allow_width_overflow` and a width of at least 1, every document renders —
-    the outcome is lines unless user/agent CSS is rejected or the CSS parser runs out of fuel; it is never `TooNarrow` -/
+    the outcome is lines unless user/agent CSS is rejected; it is never `TooNarrow` -/
 theorem renderDom_overflow (cfg : Cfg) (d : Deco) (w : Nat) (useDoc : Bool) (agentCss userCss : Option (List Char))
     (ci : CharInfo) (depth : Nat) (kids : List Node) (hov : cfg.overflow = true) (hw : 1 ≤ w) :
     ∀ o, renderDom cfg d w useDoc agentCss userCss ci depth (.doc kids) = o → (match o with | .narrow => False | _ => True) := by
   intro o ho
   subst ho
   apply renderDom_ind (fun o => match o with | .narrow => False | _ => True)
-  · trivial
-  · trivial
   · trivial
   · intro tree hok
     have hs := renderTree_total cfg d w tree hok
